@@ -166,6 +166,9 @@ pub struct GenState {
     pub fifo_counter: u64,
     /// FIFO workloads insert strictly increasing or strictly decreasing keys (both documented)
     pub fifo_descending: bool,
+    /// an eighth of the runs also write values of 64 KiB and more (lengths that no longer fit
+    /// 16 bits: varint width, block and blob framing)
+    pub huge_values: bool,
 }
 
 pub fn fifo_key(i: u64, descending: bool) -> Vec<u8> {
@@ -307,6 +310,11 @@ pub fn gen_value(st: &mut GenState, r: &mut Rng, cfg: &CfgSpec) -> Bytes {
         6..=7 => thr.max(v.len()) + r.usize(8),
         8 => thr * 2 + 20,
         _ => cfg.block_size as usize + 30,
+    };
+    let target = if st.huge_values && r.chance(1, 16) {
+        65_530 + r.usize(140_000)
+    } else {
+        target
     };
     let mut i = 0u64;
     while v.len() < target {
@@ -704,6 +712,7 @@ pub fn gen_run(property: &str, seed: u64, p: &Profile) -> RunSpec {
         disc: Discipline::default(),
         fifo_counter: 0,
         fifo_descending: p.fifo && r.chance(1, 2),
+        huge_values: r.chance(1, 8),
     };
     let mut ops = Vec::with_capacity(n_ops);
     if shared_prelude {
